@@ -10,6 +10,7 @@ pub fn harnesses() -> Vec<Harness> {
         Harness { name: "c10_burst", property: "C10", f: c10_burst, about: "full store, two validated puts before any completion notification; held <= capacity + writes in flight at every stage" },
         Harness { name: "c10_cleanup", property: "C10", f: c10_cleanup, about: "clean-up below / at the MAX_RECORDS_COUNT/10 threshold with a symbolic responsible range; only out-of-range records removed" },
         Harness { name: "c10_metrics", property: "C10", f: c10_metrics, about: "quoting metrics equal ghost values (records within range, capacity, payments) and survive a restart" },
+        Harness { name: "c04_unverified_put", property: "C04", f: c04_unverified_put, about: "RecordStore::put (records arriving from the network): never readable before validation, oversized or unparseable ones refused, only forwarded for validation" },
         Harness { name: "c01_history", property: "C01", f: c01_history, about: "histories of put/overwrite/remove/get with arbitrary completion order of background tasks of different keys" },
         Harness { name: "c02_crash", property: "C02", f: c02_crash, about: "history, then crash with a subset of tasks run and one torn write (every prefix), then restart over the same directory" },
     ]
@@ -680,5 +681,57 @@ fn run_background_tracking(w: &mut World, ops: &[(usize, Last)], durable: &mut V
             let cmd = w.cmd_rx.try_recv().unwrap();
             w.dispatch(cmd);
         }
+    }
+}
+
+// ------------------------------------------------------------------ C04 (network-facing put)
+
+fn c04_unverified_put() {
+    pin_hashes(2);
+    let mut w = World::new(100, 2);
+    settle_labelled(&mut w);
+    // a small size limit so that the boundary is cheap to reach
+    w.driver.node_store().config.max_value_bytes = 40;
+    let k = key(0);
+    let held = choice(2) == 1;
+    if held {
+        let _ = w.driver.arm_put_local_record(chunk_record(&k, 0));
+        settle_labelled(&mut w);
+    }
+    let shape = choice(5);
+    let rec = match shape {
+        0 => chunk_record(&k, 1),                                             // well formed, small
+        1 => Record { key: k.clone(), value: vec![0x91, 0x01, 0xc4, 35].into_iter().chain(std::iter::repeat(7u8).take(35)).collect(), publisher: None, expires: None }, // 39 bytes: just below the limit
+        2 => Record { key: k.clone(), value: vec![0x91, 0x01, 0xc4, 36].into_iter().chain(std::iter::repeat(7u8).take(36)).collect(), publisher: None, expires: None }, // 40 bytes: at the limit
+        3 => Record { key: k.clone(), value: vec![0xff, 0x00], publisher: None, expires: None },                // unparseable header
+        _ => Record { key: k.clone(), value: vec![], publisher: None, expires: None },                          // empty
+    };
+    let len = rec.value.len();
+    let before = w.driver.store().get(&k).map(|c| c.into_owned().value);
+    note(format!("held={held} shape={shape} len={len}"));
+    let r = w.driver.store().put(rec.clone());
+    settle_labelled(&mut w);
+    let mut forwarded = 0;
+    while let Some(e) = w.event_rx.try_recv() {
+        if let NetworkEvent::UnverifiedRecord(_) = e {
+            forwarded += 1;
+        }
+    }
+    let after = w.driver.store().get(&k).map(|c| c.into_owned().value);
+    cover("put");
+    // whatever arrives from the network is never readable before validation accepted it
+    check_bool("unverified:store_content_unchanged_by_network_put", after == before);
+    check_bool("unverified:no_file_written", w.driver.store().contains(&k) == held);
+    if len >= 40 {
+        cover("oversized");
+        check_bool("unverified:oversized_record_refused", r.is_err() && forwarded == 0);
+    }
+    if shape == 3 || shape == 4 {
+        cover("unparseable");
+        check_bool("unverified:unparseable_record_not_forwarded", forwarded == 0);
+    }
+    if shape <= 1 && !held {
+        cover("forwarded");
+        check_bool("unverified:valid_new_record_forwarded_for_validation", r.is_ok() && forwarded == 1);
     }
 }
